@@ -31,7 +31,15 @@ def read_gnorms(utils):
                 raise AnalysisError('_gnorms entry is not "name": function')
             gn[k.value] = val.id
     else:
-        raise AnalysisError('anchor vanished: _gnorms is not a dict(...) / {...} literal')
+        # not written as a literal: the table as it stands after import, by folding the module-level code that builds it
+        from ..fold import FuncConst
+        try:
+            val = utils.repo.folded(utils.rel)[0].get('_gnorms')
+        except Exception:
+            val = None
+        if not isinstance(val, dict) or not val or not all(isinstance(k, str) and isinstance(f, FuncConst) for k, f in val.items()):
+            raise AnalysisError('anchor vanished: _gnorms is not a dict(...) / {...} literal and does not fold to a table group -> function')
+        gn = {k: f.node.name for k, f in val.items()}
     return gn
 
 
